@@ -58,3 +58,22 @@ Lemma rwlock_wrapper_is_faithful :
   takes "read" RwLock_read = true /\ takes "write" RwLock_write = true /\
   takes "read" RwLock_read_pl = true /\ takes "write" RwLock_write_pl = true.
 Proof. vm_compute. repeat split. Qed.
+
+(* a new watcher starts at the handle's CURRENT reload id (it has seen everything so far), and
+   `reloaded` compares-and-advances against the id loaded now *)
+Definition watcher_new_wf (f : fn_def) : bool :=
+  match fn_body f with
+  | [EStruct ["Self"] [("reload_id", EPath ["reload_id"]); ("last_reload_id", EMethod (EPath ["reload_id"]) "load" [])]] => true
+  | _ => false
+  end.
+Definition watcher_reloaded_wf (f : fn_def) : bool :=
+  match fn_body f with
+  | [EIf (ELet (PTupleStruct ["Some"] [PIdent i None]) (ERef (EField (EPath ["self"]) "inner")))
+       [ELetS (PIdent n None) (Some (EMethod (EField (EPath [i']) "reload_id") "load" [])) None;
+        ESemi (EReturn (Some (EMethod (EField (EPath [i'']) "last_reload_id") "update" [EPath [n']])))] None;
+     ELit (LBool false)] => String.eqb i i' && String.eqb i i'' && String.eqb n n'
+  | _ => false
+  end.
+Lemma watcher_starts_at_the_current_id :
+  watcher_new_wf ReloadWatcherInner_new = true /\ watcher_reloaded_wf ReloadWatcher_reloaded = true.
+Proof. vm_compute. split; reflexivity. Qed.
